@@ -111,7 +111,7 @@ int main(int argc, char **argv) {
 		snap_take(&base); mark = va_mark();
 		for (rep = 0; rep < R && vh_nviol < vh_max_viol; rep++) {
 			/* "this holds equally when calls in the sequence fail": every second repetition one allocation of the sequence is refused */
-			if ((rep & 1) && nalloc > 0 && strcmp(SC[i].name, "thread") && strcmp(SC[i].name, "threads_tls") && strcmp(SC[i].name, "thread_foreign")) { va_arm(1 + (long long)vh_below(&r, (uint64_t)nalloc), 0); st_failing_reps++; }
+			if ((rep & 1) && nalloc > 0 && strcmp(SC[i].name, "thread") && strcmp(SC[i].name, "threads_tls") && strcmp(SC[i].name, "thread_foreign") && strcmp(SC[i].name, "tls_first_use")) { va_arm(1 + (long long)vh_below(&r, (uint64_t)nalloc), 0); st_failing_reps++; }
 			run_one(SC[i].fn);
 			va_disarm();
 			check_allocs(mark); snap_take(&now); snap_compare(&base, &now); check_names(); check_fdtable(fdbase); st_checks++;
